@@ -122,10 +122,16 @@ theorem late_appointment_answered (s : Tower) (node : Node) (k : Uuid) (a : Appt
   simp only [hdec]
   split <;> rfl
 
-/-- an undecryptable late appointment is not stored (the slot stays charged) -/
+/-- an undecryptable late appointment is not stored (the slot stays charged), nothing is asked of the
+node, and the version it would have replaced, if any, is dropped with it -/
 theorem late_undecryptable_not_stored (s : Tower) (node : Node) (k : Uuid) (a : Appt) (d : TxId)
-    (hdec : a.blob.decrypt d = none) : storeTriggeredAppointment s node k a d = (s, []) := by
-  simp [storeTriggeredAppointment, hdec]
+    (hdec : a.blob.decrypt d = none) :
+    (storeTriggeredAppointment s node k a d).2 = [] ∧
+    (storeTriggeredAppointment s node k a d).1.db.appts k = none ∧
+    (storeTriggeredAppointment s node k a d).1.mem = s.mem := by
+  simp only [storeTriggeredAppointment, hdec, deleteAppointments, Bool.false_eq_true, ↓reduceIte, true_and]
+  rw [Db.removeAppts_appts]
+  simp
 
 set_option maxRecDepth 20000 in
 /-- non-vacuity: a stored appointment, its dispute mined, the node accepts the penalty -/
